@@ -1,3 +1,284 @@
 import KoordVerif.Model.C12
+import KoordVerif.Proofs.C12
+/-
+C12 — property theorems (DESIGN.md §4 C12, Appendix A.5).
+
+A batch is the `[][]ResourceUpdater` handed to LeveledUpdateBatch; `T` is the intended content of
+every cgroup directory (the updater's value on the directories of the batch, the current content
+elsewhere); `parent` is the cgroup tree; `le` the hierarchy order of the resource (⊆ for CPU sets,
+≤ with unlimited on top for limits/protections).  `Valid parent le f` = "the kernel would accept f".
+The crash-point quantifier is the universally quantified prefix length `k` of the write sequence.
+-/
 namespace KoordVerif.C12
+
+variable {α : Type}
+
+/-- every child is within its parent. -/
+def Valid (parent : Nat → Option Nat) (le : α → α → Prop) (f : Nat → α) : Prop :=
+  ∀ c p, parent c = some p → le (f c) (f p)
+
+/-- the batch is levelled along the tree: the parent of a directory never sits in the same or a later level. -/
+def Levelled (parent : Nat → Option Nat) (levels : List (List (Upd α))) : Prop :=
+  levels.Pairwise (fun hi lo => ∀ a ∈ hi, ∀ b ∈ lo, parent a.node ≠ some b.node) ∧
+  ∀ L ∈ levels, ∀ a ∈ L, ∀ b ∈ L, parent a.node ≠ some b.node
+
+/-- hypotheses on one batch relative to the file contents `old` at its start. -/
+structure BatchOK (levels : List (List (Upd α))) (old T : Nat → α) : Prop where
+  /-- every updater carries a value the validator accepts, namely `T` of its directory -/
+  tgt : ∀ u ∈ levels.flatten, u.tgt = some (T u.node)
+  /-- directories outside the batch keep their content -/
+  out : ∀ n, n ∉ nodes levels.flatten → T n = old n
+  /-- no directory twice -/
+  nodup : (nodes levels.flatten).Nodup
+
+/-! ### helper lemmas (order part) -/
+
+section Order
+variable {D : Dom α} {le : α → α → Prop} (hD : DomEq D) (hO : DomOrd D le) (hm : D.mergeable = true)
+variable (parent : Nat → Option Nat) (old T : Nat → α)
+
+include hO in
+theorem eff_edge (hold : Valid parent le old) (htgt : Valid parent le T) (c p : Nat) (h : parent c = some p) :
+    le (eff D (old c) (T c)) (eff D (old p) (T p)) :=
+  eff_lub hO _ _ _ (hO.trans _ _ _ (hold c p h) (le_eff_old hO _ _)) (hO.trans _ _ _ (htgt c p h) (le_eff_new hO _ _))
+
+/-- merge pass invariant with the order part: no directory already raised has its parent still waiting. -/
+def I1 (D : Dom α) (parent : Nat → Option Nat) (old T : Nat → α) (l : List (Upd α)) (s : St α) : Prop :=
+  J1 D old T l s ∧
+  (∀ c p, parent c = some p → p ∈ nodes l → c ∉ nodes l → eff D (old c) (T c) = old c) ∧
+  l.Pairwise (fun a b => parent a.node ≠ some b.node)
+
+/-- exact pass invariant with the order part: no directory already lowered has a child still waiting. -/
+def I2 (D : Dom α) (parent : Nat → Option Nat) (old T : Nat → α) (l : List (Upd α)) (s : St α) : Prop :=
+  J2 D old T l s ∧
+  (∀ c p, parent c = some p → c ∈ nodes l → p ∉ nodes l → eff D (old p) (T p) = T p) ∧
+  l.Pairwise (fun a b => parent b.node ≠ some a.node)
+
+include hO in
+theorem I1_valid (hold : Valid parent le old) (htgt : Valid parent le T) (l : List (Upd α)) (s : St α)
+    (h : I1 D parent old T l s) : Valid parent le s.files := by
+  obtain ⟨⟨_, _, _, _, hf⟩, hcl, _⟩ := h
+  intro c p hcp
+  rw [hf c, hf p]
+  by_cases hc : c ∈ nodes l <;> by_cases hp : p ∈ nodes l <;> simp only [hc, hp, if_true, if_false]
+  · exact hold c p hcp
+  · exact hO.trans _ _ _ (hold c p hcp) (le_eff_old hO _ _)
+  · rw [hcl c p hcp hp hc]; exact hold c p hcp
+  · exact eff_edge hO parent old T hold htgt c p hcp
+
+include hO in
+theorem I2_valid (hold : Valid parent le old) (htgt : Valid parent le T) (l : List (Upd α)) (s : St α)
+    (h : I2 D parent old T l s) : Valid parent le s.files := by
+  obtain ⟨⟨_, _, _, _, hf⟩, hcl, _⟩ := h
+  intro c p hcp
+  rw [hf c, hf p]
+  by_cases hc : c ∈ nodes l <;> by_cases hp : p ∈ nodes l <;> simp only [hc, hp, if_true, if_false]
+  · exact eff_edge hO parent old T hold htgt c p hcp
+  · rw [← hcl c p hcp hc hp]; exact eff_edge hO parent old T hold htgt c p hcp
+  · exact hO.trans _ _ _ (htgt c p hcp) (le_eff_new hO _ _)
+  · exact htgt c p hcp
+
+theorem mem_nodes {l : List (Upd α)} {n : Nat} (h : n ∈ nodes l) : ∃ u ∈ l, u.node = n := by
+  simpa [nodes] using h
+
+include hD hm in
+theorem I1_step (exp : Bool) (u : Upd α) (l : List (Upd α)) (s : St α) (h : I1 D parent old T (u :: l) s) :
+    I1 D parent old T l (step1 D exp s u).1 ∧
+    (((step1 D exp s u).2 = [] ∧ (step1 D exp s u).1.files = s.files) ∨
+     (∃ w, (step1 D exp s u).2 = [w] ∧ (step1 D exp s u).1.files = setAt s.files w.1 w.2)) := by
+  obtain ⟨hj, hcl, hpw⟩ := h
+  obtain ⟨g1, g2⟩ := J1_step hD hm exp old T u l s hj
+  rw [List.pairwise_cons] at hpw
+  refine ⟨⟨g1, ?_, hpw.2⟩, ?_⟩
+  · intro c p hcp hp hc
+    by_cases hcu : c = u.node
+    · obtain ⟨b, hb, hbn⟩ := mem_nodes hp
+      exact absurd (by rw [← hcu, hbn]; exact hcp) (hpw.1 b hb)
+    · exact hcl c p hcp (by simp [hp]) (by simp [hcu, hc])
+  · rcases g2 with g | g
+    · exact Or.inl g
+    · exact Or.inr ⟨_, g.1, g.2.1⟩
+
+include hD in
+theorem I2_step (exp : Bool) (u : Upd α) (l : List (Upd α)) (s : St α) (h : I2 D parent old T (u :: l) s) :
+    I2 D parent old T l (step2 D exp s u).1 ∧
+    (((step2 D exp s u).2 = [] ∧ (step2 D exp s u).1.files = s.files) ∨
+     (∃ w, (step2 D exp s u).2 = [w] ∧ (step2 D exp s u).1.files = setAt s.files w.1 w.2)) := by
+  obtain ⟨hj, hcl, hpw⟩ := h
+  obtain ⟨g1, g2⟩ := J2_step hD exp old T u l s hj
+  rw [List.pairwise_cons] at hpw
+  refine ⟨⟨g1, ?_, hpw.2⟩, ?_⟩
+  · intro c p hcp hc hp
+    by_cases hpu : p = u.node
+    · obtain ⟨b, hb, hbn⟩ := mem_nodes hc
+      exact absurd (by rw [← hpu, hbn]; exact hcp) (hpw.1 b hb)
+    · exact hcl c p hcp (by simp [hc]) (by simp [hpu, hp])
+  · rcases g2 with g | g
+    · exact Or.inl g
+    · exact Or.inr ⟨_, g.1, g.2.1⟩
+
+end Order
+
+/-! ### what the two passes leave in the files -/
+
+section Main
+set_option linter.unusedSectionVars false
+variable {D : Dom α} (hD : DomEq D) (hm : D.mergeable = true) (exp : Bool)
+include hD hm
+variable (levels : List (List (Upd α))) (s : St α) (T : Nat → α)
+
+omit hD hm in
+theorem mem_nodes_rev (n : Nat) : n ∈ nodes levels.reverse.flatten ↔ n ∈ nodes levels.flatten :=
+  (nodes_perm (reverse_flatten_perm levels)).mem_iff
+
+theorem J1_start (hc : CacheOK s) (hb : BatchOK levels s.files T) :
+    J1 D s.files T levels.flatten { s with skip := [] } := by
+  refine ⟨hc, rfl, hb.nodup, hb.tgt, ?_⟩
+  intro n
+  by_cases h : n ∈ nodes levels.flatten
+  · simp [h]
+  · simp only [h, if_false]; rw [hb.out n h]; exact (eff_self hD _).symm
+
+theorem J1_end (hc : CacheOK s) (hb : BatchOK levels s.files T) :
+    J1 D s.files T [] (pass1 D exp levels.flatten { s with skip := [] }).1 :=
+  runPass_inv (step1 D exp) (J1 D s.files T) (fun u l s' h => (J1_step hD hm exp s.files T u l s' h).1) _ _
+    (J1_start hD hm levels s T hc hb)
+
+theorem J2_start (hc : CacheOK s) (hb : BatchOK levels s.files T) :
+    J2 D s.files T levels.reverse.flatten (pass1 D exp levels.flatten { s with skip := [] }).1 := by
+  obtain ⟨g1, g2, _, _, g5⟩ := J1_end hD hm exp levels s T hc hb
+  refine ⟨g1, g2, ?_, ?_, ?_⟩
+  · exact (nodes_perm (reverse_flatten_perm levels)).nodup_iff.mpr hb.nodup
+  · intro u hu; exact hb.tgt u ((reverse_flatten_perm levels).mem_iff.mp hu)
+  · intro n
+    rw [g5 n]
+    by_cases h : n ∈ nodes levels.reverse.flatten
+    · simp [h]
+    · have h' : n ∉ nodes levels.flatten := fun x => h ((mem_nodes_rev levels n).mpr x)
+      simp only [h, nodes_nil, List.not_mem_nil, if_false]
+      rw [hb.out n h']; exact eff_self hD _
+
+/-- **final_is_target**: when LeveledUpdateBatch returns, every file holds its target value
+    (all trees, all values, any level arrangement, fresh or expired cache entries). -/
+theorem final_is_target (hc : CacheOK s) (hb : BatchOK levels s.files T) :
+    ∀ n, (runBatch D exp levels s).1.files n = T n := by
+  have h2 := runPass_inv (step2 D exp) (J2 D s.files T)
+    (fun u l s' h => (J2_step hD exp s.files T u l s' h).1) _ _ (J2_start hD hm exp levels s T hc hb)
+  obtain ⟨_, _, _, _, g5⟩ := h2
+  intro n
+  simpa [runBatch, pass1, pass2] using g5 n
+
+/-- the cache describes the files again after the batch (so the next batch starts from `CacheOK`). -/
+theorem cache_consistent_after (hc : CacheOK s) (hb : BatchOK levels s.files T) :
+    CacheOK (runBatch D exp levels s).1 := by
+  have h2 := runPass_inv (step2 D exp) (J2 D s.files T)
+    (fun u l s' h => (J2_step hD exp s.files T u l s' h).1) _ _ (J2_start hD hm exp levels s T hc hb)
+  exact h2.1
+
+/-- the write sequence is exactly what changed the files. -/
+theorem writes_replay (hc : CacheOK s) (hb : BatchOK levels s.files T) :
+    applyWrites s.files (runBatch D exp levels s).2 = (runBatch D exp levels s).1.files := by
+  have a1 := runPass_apply (step1 D exp) (J1 D s.files T)
+    (fun u l s' h => by
+      obtain ⟨g1, g2⟩ := J1_step hD hm exp s.files T u l s' h
+      refine ⟨g1, ?_⟩
+      rcases g2 with g | g
+      · rw [g.1, g.2]; rfl
+      · rw [g.1, g.2.1]; rfl) _ _ (J1_start hD hm levels s T hc hb)
+  have a2 := runPass_apply (step2 D exp) (J2 D s.files T)
+    (fun u l s' h => by
+      obtain ⟨g1, g2⟩ := J2_step hD exp s.files T u l s' h
+      refine ⟨g1, ?_⟩
+      rcases g2 with g | g
+      · rw [g.1, g.2]; rfl
+      · rw [g.1, g.2.1]; rfl) _ _ (J2_start hD hm exp levels s T hc hb)
+  simp only [runBatch, applyWrites_append]
+  have a1' : applyWrites s.files (pass1 D exp levels.flatten { s with skip := [] }).2 =
+      (pass1 D exp levels.flatten { s with skip := [] }).1.files := a1
+  rw [a1']
+  exact a2
+
+/-- **no_redundant_write**: a file whose value is unchanged (`old n = T n`, in particular every directory
+    outside the batch) is never written — for every resource whose write-if-different comparison is
+    reflexive (`hrefl`; true for cpuset.cpus, memory.min/low/high and cgroup-v1 cpu.cfs_quota_us). -/
+theorem no_redundant_write (hrefl : ∀ a, D.same a a = true) (hc : CacheOK s) (hb : BatchOK levels s.files T) :
+    ∀ w ∈ (runBatch D exp levels s).2, s.files w.1 ≠ T w.1 := by
+  have w1 := runPass_writes (step1 D exp) (J1 D s.files T) (fun w => s.files w.1 ≠ T w.1)
+    (fun u l s' h => by
+      obtain ⟨g1, g2⟩ := J1_step hD hm exp s.files T u l s' h
+      refine ⟨g1, ?_⟩
+      rcases g2 with g | g
+      · rw [g.1]; simp
+      · rw [g.1]; intro w hw he
+        simp only [List.mem_singleton] at hw; subst hw
+        simp only at he
+        have := g.2.2; rw [he, hD.mergeSelf] at this; exact absurd this (by simp)) _ _
+    (J1_start hD hm levels s T hc hb)
+  have w2 := runPass_writes (step2 D exp) (J2 D s.files T) (fun w => s.files w.1 ≠ T w.1)
+    (fun u l s' h => by
+      obtain ⟨g1, g2⟩ := J2_step hD exp s.files T u l s' h
+      refine ⟨g1, ?_⟩
+      rcases g2 with g | g
+      · rw [g.1]; simp
+      · rw [g.1]; intro w hw he
+        simp only [List.mem_singleton] at hw; subst hw
+        simp only at he
+        have := g.2.2; rw [he, eff_self hD, hrefl] at this; exact absurd this (by simp)) _ _
+    (J2_start hD hm exp levels s T hc hb)
+  intro w hw
+  simp only [runBatch, List.mem_append] at hw
+  rcases hw with hw | hw
+  · exact w1 w hw
+  · exact w2 w hw
+
+/-- **every_prefix_valid**: if the hierarchy is valid before the batch and the target is valid, then after
+    every single file write — every prefix of the write sequence, i.e. every crash point — the hierarchy
+    is valid.  Holds for any tree depth/shape, any values, fresh or expired cache entries. -/
+theorem every_prefix_valid {le : α → α → Prop} (hO : DomOrd D le) (parent : Nat → Option Nat)
+    (hc : CacheOK s) (hb : BatchOK levels s.files T) (hlev : Levelled parent levels)
+    (hold : Valid parent le s.files) (htgt : Valid parent le T) :
+    ∀ k, Valid parent le (applyWrites s.files ((runBatch D exp levels s).2.take k)) := by
+  -- order facts for the two iteration orders
+  have pw1 : levels.flatten.Pairwise (fun a b => parent a.node ≠ some b.node) := by
+    rw [List.pairwise_flatten]
+    refine ⟨fun L hL => ?_, hlev.1⟩
+    exact List.pairwise_of_forall_mem_list (fun a ha b hb => hlev.2 L hL a ha b hb)
+  have pw2 : levels.reverse.flatten.Pairwise (fun a b => parent b.node ≠ some a.node) := by
+    rw [List.pairwise_flatten]
+    refine ⟨fun L hL => ?_, ?_⟩
+    · have hL' : L ∈ levels := by simpa using hL
+      exact List.pairwise_of_forall_mem_list (fun a ha b hb => hlev.2 L hL' b hb a ha)
+    · rw [List.pairwise_reverse]
+      exact hlev.1.imp (fun h x hx y hy => h y hy x hx)
+  have i1 : I1 D parent s.files T levels.flatten { s with skip := [] } := by
+    refine ⟨J1_start hD hm levels s T hc hb, ?_, pw1⟩
+    intro c p _ _ hcn
+    rw [hb.out c hcn]; exact eff_self hD _
+  have i2 : I2 D parent s.files T levels.reverse.flatten (pass1 D exp levels.flatten { s with skip := [] }).1 := by
+    refine ⟨J2_start hD hm exp levels s T hc hb, ?_, pw2⟩
+    intro c p _ _ hpn
+    have h' : p ∉ nodes levels.flatten := fun x => hpn ((mem_nodes_rev levels p).mpr x)
+    rw [hb.out p h']; exact eff_self hD _
+  have a := runPass_prefix (step1 D exp) (I1 D parent s.files T) (Valid parent le)
+    (I1_valid hO parent s.files T hold htgt) (fun u l s' h => I1_step hD hm parent s.files T exp u l s' h) _ _ i1
+  have b := runPass_prefix (step2 D exp) (I2 D parent s.files T) (Valid parent le)
+    (I2_valid hO parent s.files T hold htgt) (fun u l s' h => I2_step hD parent s.files T exp u l s' h) _ _ i2
+  have a1 := runPass_apply (step1 D exp) (J1 D s.files T)
+    (fun u l s' h => by
+      obtain ⟨g1, g2⟩ := J1_step hD hm exp s.files T u l s' h
+      refine ⟨g1, ?_⟩
+      rcases g2 with g | g
+      · rw [g.1, g.2]; rfl
+      · rw [g.1, g.2.1]; rfl) _ _ (J1_start hD hm levels s T hc hb)
+  intro k
+  simp only [runBatch]
+  apply prefix_append (Valid parent le) s.files _ _ a
+  intro k'
+  have a1' : applyWrites s.files (pass1 D exp levels.flatten { s with skip := [] }).2 =
+      (pass1 D exp levels.flatten { s with skip := [] }).1.files := a1
+  rw [a1']
+  exact b k'
+
+end Main
+
 end KoordVerif.C12
